@@ -18,6 +18,7 @@ func checkC14(c *Check) {
 	c.configuredHoldTimeProvenance("C14.1 configured-hold-time")
 	c.routerIDAccepted("C14.1 router-id-source")
 	c.codecContracts("C14.1 codec-effects")
+	c.accumulatorsStartEmpty("C14.1 accumulators", "openMessage.encode", "capabilityOptionalParam.encode", "newOpenMessage")
 	c.specConstants("C14.1 spec-constants", "openMessageType", "asTrans", "capabilityOptionalParamType", "CAP_FOUR_OCTET_AS", "headerLength")
 	fn := p.Fn("newOpenMessage")
 	if fn == nil || len(fn.Params) != 4 {
